@@ -361,3 +361,19 @@ def chain_mutations(tm, guard_adt):
         for fn, what, line in scans.container_mutations(tm.facts, adt, fidx, exclude_fns=excl, allow_local=True):
             out.append((fn, what, line, "%s.%s" % (short(adt), fname)))
     return out
+
+
+def destructor_always_restores(ck, tm, g, rule):
+    """Every normally returning path of the restore guard's destructor performs the restoring write (shared by C02 R2.2,
+    C04 R4.7, C05 R5.9): a destructor that skips the restore on some edge - while unwinding, say - leaves the patch in
+    place although the injector lock is released and the trampoline may be gone."""
+    n = 0
+    for v in tm.variants(g.drop_fn):
+        if v.status == "returned":
+            n += 1
+            n_ = len(code_writes(v))
+            ck.ob(rule, "every-destructor-path-restores" if n_ == 1 else "destructor-path-without-restore", tm.target, n_ == 1,
+                  "a normally returning path of the guard's destructor performs %d restoring write(s)%s" % (
+                      n_, "" if n_ == 1 else " [%s]" % fmt_dec(v)))
+    ck.floor(rule, "returning-destructor-paths", n, 1, tm.target)
+    return n
